@@ -101,6 +101,8 @@ def gen_spec(rng, kinds=("grid", "cvt", "cvt_brute", "cvt_chunk", "sliding"), cm
         spec["odtype"] = "d" if spec["dtype"] == "f" else "f"
     if rng.random() < 0.3:
         spec["reuse"] = rng.randrange(1, 1 << 30)      # see reuse_buffers
+    if kind != "sliding" and rng.random() < 0.15:
+        spec["bogus_threshold"] = True
     if rng.random() < 0.35:
         # lifecycle: before every [every]-th operation the live archive is replaced by a copy of itself (copy.deepcopy / pickle round trip);
         # a copy must behave exactly like the original from then on (no model operation corresponds to it)
@@ -135,6 +137,18 @@ def relay(archive, spec, step):
 
 def make_archive(spec):
     archive = _make_archive(spec)
+    if spec.get("decoy", True) and spec["kind"] == "sliding" and spec.get("remap_frequency", 10 ** 9) <= 64:
+        # an archive with the SAME configuration that lives next to this one and remaps at once (the usual archive + result-archive pair):
+        # whatever the two constructors may share, this one's boundaries are its own
+        try:
+            twin = _make_archive(spec)
+            nd = measure_dim(spec)
+            for j in range(2 * spec["remap_frequency"] + 2):
+                twin.add_single(**single_args(dict(spec, reuse=None), [800000 + j, float(j), [(-1) ** j * (7.0 + 3 * j)] * nd]))
+            DECOYS.append(twin)
+            del DECOYS[:-3]
+        except Exception:  # noqa
+            pass
     if spec.get("decoy", True):
         try:
             d = dict(spec, dtype="d" if spec["dtype"] == "f" else "f", offset=spec["offset"] + 3.0, seed=spec["seed"] + 1, odtype=None)
@@ -222,6 +236,10 @@ def batch_arrays(spec, cands, container="nd"):
             if name == "ev":
                 arr = arr.reshape(n, 2)
         kw[name] = arr
+    if spec.get("bogus_threshold") and spec["kind"] != "sliding" and n:
+        # callers copy elites between archives with dst.add(**src.data()): a `threshold` keyword is accepted and must be IGNORED
+        # (thresholds are the archive's own bookkeeping)
+        kw["threshold"] = np.array([1e6 if (c[0] % 2) else -1e6 for c in cands], dtype=DT[spec.get("odtype") or spec["dtype"]])
     if container == "narrow" and spec["dtype"] == "d" and not spec.get("odtype"):
         # a float32 objective array handed to a float64 archive (when every value is a float32 value, so nothing is lost)
         o32 = np.asarray(obj, dtype=np.float64).astype(np.float32)
@@ -390,6 +408,8 @@ def apply_op(archive, spec, op, table, obs=True):
                 info = {"status": np.array([], dtype=np.int32), "value": np.array([], dtype=odt(spec))}
             ent["ret"] = {"status": [int(x) for x in info["status"]], "value": [F(x) for x in info["value"]],
                           "value_dtype": np.asarray(info["value"]).dtype.name, "keys": sorted(info.keys())}
+            if len(cands):
+                ent["_raw_info"] = info
         except Exception as e:  # noqa
             ent["ret"] = {"error": err_code(e), "msg": repr(e)}
         if spec["kind"] == "sliding":
@@ -410,6 +430,7 @@ def apply_op(archive, spec, op, table, obs=True):
             info = archive.add_single(**kw)
             ent["ret"] = {"status": [int(info["status"])], "value": [F(info["value"])],
                           "value_dtype": np.asarray(info["value"]).dtype.name, "keys": sorted(info.keys())}
+            ent["_raw_info"] = info
         except Exception as e:  # noqa
             ent["ret"] = {"error": err_code(e), "msg": repr(e)}
         mops.append([1, mcand(cell, c, spec)])
@@ -434,11 +455,24 @@ def run_impl(spec, ops, obs=True):
     archive = make_archive(spec)
     table = {}
     trace, mops = [], []
+    held = None      # (trace index, the feedback object of the previous add / add_single, what it said when it was returned)
     for step, op in enumerate(ops):
         archive = relay(archive, spec, step)
         ent, m = apply_op(archive, spec, op, table, obs)
         trace.append(ent)
         mops.extend(m)
+        # a report belongs to its call: what the previous call handed back must still say the same after this one (callers collect reports)
+        if held is not None:
+            k0, info0, said = held
+            try:
+                now = ([int(x) for x in np.asarray(info0["status"]).reshape(-1)], [F(x) for x in np.asarray(info0["value"]).reshape(-1)])
+            except Exception as e:  # noqa
+                now = repr(e)
+            if now != said and "error" not in trace[k0]["ret"]:
+                trace[k0]["ret"] = {"error": "feedback-changed", "msg": "the feedback returned by operation %d reads %s after operation %d (it read %s when it was returned)" % (
+                    k0, str(now)[:120], step, str(said)[:120])}
+        raw = ent.pop("_raw_info", None)
+        held = None if raw is None else (len(trace) - 1, raw, ([int(x) for x in np.asarray(raw["status"]).reshape(-1)], [F(x) for x in np.asarray(raw["value"]).reshape(-1)]))
     return trace, mops, archive, table
 
 
